@@ -1,12 +1,12 @@
 """C07 - every run terminates: no deadlock, livelock or panic; defined errors are values."""
 from . import syscheck, sysdiff as S
 
-PROFILES = [('err', 2), ('alu', 1), ('ssa', 1), ('branch', 1), ('loops', 1), ('shadow', 1), ('ldonly', 1), ('touched', 1), ('disj', 1), ('mem', 1), ('mixed', 1), ('tail', 1)]
+PROFILES = [('err', 2), ('alu', 1), ('ssa', 1), ('ssamem', 1), ('ssald', 1), ('evictlf', 0.3), ('branch', 1), ('loops', 1), ('shadow', 1), ('ldonly', 1), ('touched', 1), ('disj', 1), ('mem', 1), ('mixed', 1), ('tail', 1)]
 
 
 def run(ctx):
     return syscheck.run(
-        ctx, 'C07', 'C07', PROFILES, S.VARIANTS, n_quick=35, n_thorough=1500,
+        ctx, 'C07', 'C07', PROFILES, S.VARIANTS, n_quick=50, n_thorough=1500,
         assumptions=['cycle budget per run = 4*(MemoryAccess+60)*(executed instructions+20) VerifTick ticks, derived from the sequential run; '
                      'exceeding it, a recovered Go panic, or a dead harness process (Go-level deadlock) is a violation inside the domain',
                      'programs of the err profile reach a division by zero or an undefined label: the run must return that error value'],
